@@ -528,6 +528,37 @@ def check_definitions(ctx, U):
                                   RKMATH, key='%s|%s|%s|definition' % (R, RKMATH, what.split('<')[0]))
         except Undecided as e:
             ctx.undecided(R, inst, str(e), RKMATH)
+    # ---- madd: the definition a*b + c is two float operations - the product is rounded to float, then the sum is rounded.  A fused
+    #      multiply-add rounds once: algebraically the same value, but a different float for about one triple in five, and a cancelling
+    #      sum madd(a, b, -(a*b)) returns the rounding error of the product instead of 0.
+    inst = 'madd roundings [%s]' % U.cfg
+    s = U.summary(R, inst, 'K_madd', RKMATH, rounding=True)
+    if s is not None:
+        n += 1
+        try:
+            probs, und = [], []
+            for g_, t_ in guarded(s):
+                ds = sorted((z for z in t_.free_symbols if re.match(r'^_d\d+$', z.name)), key=lambda z: int(z.name[2:]))
+                exact = sp.expand(t_.xreplace({z: 0 for z in ds}))
+                if I.opaque_atoms(t_) or unknown_atoms(t_, ()) or not (I.equal(exact, a * b + c) or I.equal_under(list(g_), exact, a * b + c)):
+                    und.append('case `%s`: %s is not a*b + c with rounding factors' % (show_guard(g_), t_))
+                    continue
+                two = [(u, v) for u in ds for v in ds if u != v and I.equal(t_, (a * b * (1 + u) + c) * (1 + v))]
+                if two:
+                    continue
+                if len(ds) == 1 and I.equal(t_, (a * b + c) * (1 + ds[0])):
+                    probs.append(('single-rounding', 'a*b + c is evaluated with one rounding, (a*b + c)(1+d) - a fused multiply-add: the '
+                                  'product is not rounded to float before the addition, so the result differs from the float expression '
+                                  'a*b + c = ((a*b)(1+d1) + c)(1+d2) whenever the low half of the exact product survives the sum (about one '
+                                  'random triple in five by an ulp; madd(a, a, -(a*a)) returns the rounding error of a*a, e.g. 2^-24 for '
+                                  'a = 1 + 2^-12, instead of 0)'))
+                else:
+                    und.append('case `%s`: rounding structure %s is neither (a*b(1+d1) + c)(1+d2) nor the fused (a*b + c)(1+d)'
+                               % (show_guard(g_), t_))
+            report(ctx, R, inst, RKMATH, '%s|%s|madd|' % (R, RKMATH), probs, und,
+                   'product rounded to float, then the sum rounded: ((a*b)(1+d1) + c)(1+d2)')
+        except Undecided as e:
+            ctx.undecided(R, inst, str(e), RKMATH)
     # ---- lerp: element types other than float (the definition converts each operand to float before any arithmetic)
     for kname, what, conv, cast in (('K_lerp_u', 'lerp<unsigned>', 'uitofp_32', 'fptoui32'), ('K_lerp_i', 'lerp<int>', 'sitofp_32', 'fptosi32')):
         inst = '%s [%s]' % (what, U.cfg)
@@ -970,7 +1001,12 @@ def check_packing(ctx, U):
                         if kq.coeff_monomial(sp.Symbol('_P')) < 0:
                             probs.append(('decreasing', 'case `%s`: %s decreases with f' % (show_guard(g), t)))
                         if lo_b < 0:
-                            probs.append(('negative-base', 'case `%s` raises f, which may be negative, to a fractional power' % show_guard(g)))
+                            probs.append(('negative-base', 'case `%s` raises f, which may be negative, to a fractional power: pow(f, %s) is NaN for every '
+                                          'f < 0 instead of the saturated value 0 (not saturating, and linear_to_srgb(-x) <= linear_to_srgb(0) '
+                                          'fails: not monotone); the NaN is unordered, so the comparisons of a later clamp(., 0, 1) pass it '
+                                          'through and the float -> integer conversion of the packing receives NaN (undefined; the SSE '
+                                          'conversions give 0x80000000, whose bit 31 lands in another channel\'s byte) - negative inputs '
+                                          'must be clamped to 0 before the power' % (show_guard(g), pw[0].args[1])))
                 if kind is None:
                     und.append('case `%s` returns %s: not a constant, a*f + b or k*pow(f, g) + m' % (show_guard(g), t))
                     continue
@@ -1022,7 +1058,7 @@ def rounding_amplification(U, slot_lo, slot_diff):
     lo, hi = sym('lo'), sym('hi')
     try:
         scr = U.mod.function('K_pcg_ctor').summary(rounding=True)
-        sor = U.mod.function('K_pcg_call').summary(rounding=True)
+        sor = U.mod.function('K_pcg_call').summary(rounding=True, max_unroll=LOOP_LIMIT)
         M = scr.value(slot_diff)
         ren = lambda e: e.xreplace({z: sp.Symbol('_c' + z.name[2:], real=True) for z in e.free_symbols if z.name.startswith('_d')})
         ret = ren(sor.value('ret'))
@@ -1069,6 +1105,62 @@ def I_log2(q):
     return log2_floor(q)
 
 
+LOOP_LIMIT = 8      # a distribution member that goes round a loop more often than this on input-dependent tests is not decided
+
+
+def degenerate_range_loop(U, kname, members, width=None, hyp=None):
+    """Does the call operator return for a degenerate range lower == upper?  members = (slot of lower, slot of upper, slot of the
+    stored width), width = the constructor's value of the stored width in (lo, hi).
+    The operator is executed symbolically with at most 3 trips round any loop; paths still inside a loop after that are set aside.
+    If there are such paths, every test that leaves the loop is examined under the hypothesis lower = upper = lo (stored width =
+    width at hi := lo; none of the three members is written in the loop): when each of them is refuted there whatever the
+    generator state is (the state symbols are unconstrained inputs, so the first trip stands for every trip), and the continue
+    conditions hold, no trip ever leaves the loop.
+    -> None (no input-dependent loop, or the degenerate range leaves it) | (kind, message) | 'reason it is undecided'"""
+    lo, hi = sym('lo'), sym('hi')
+    try:
+        s = U.mod.function(kname).summary(max_unroll=3, cut_loops=True)
+    except (Undecided, KeyError):
+        return None                   # reported by the ordinary summary
+    if not s.cut:
+        return None
+    try:
+        written = [k for k in s.slots() if k != 'ret']
+        for p_ in s.cut:
+            written += [k for k in s.path_slots(p_) if k != 'ret']
+        if any(m in written for m in members):
+            return 'the loop through %s writes the range members %s' % (s.cut[0].cut[1], sorted(set(written) & set(members)))
+        if hyp is not None:          # members = (lower, upper) + the further members the constructor derives from the bounds
+            H = {sym(k): sp.expand(v.xreplace({hi: lo})) for k, v in hyp.items()}
+        else:
+            H = {sym(members[0]): lo, sym(members[1]): lo, sym(members[2]): sp.expand(width.xreplace({hi: lo}))}
+        sub = lambda g: [I.refold(l.xreplace(H)) for l in g]
+        exits = [sub(p_.guard) for p_ in s.paths]
+        stays = [sub(p_.guard) for p_ in s.cut]
+        if any(I.consistent(g) for g in exits):
+            return None               # some trip can leave the loop for lower == upper
+        if not any(I.consistent(g) for g in stays):
+            return None
+        g0 = s.paths[0].guard
+        test = I.neg(g0[-1]) if g0 else None
+        names = {sym(members[0]): sp.Symbol('lower'), sym(members[1]): sp.Symbol('upper')}
+        if len(members) > 2 and hyp is None:
+            names[sym(members[2])] = sp.Symbol('width')
+        draws = [z for z in I.all_atoms(test) if z.func.__name__.startswith(('uitofp_', 'sitofp_'))]
+        names.update({z: sp.Symbol('rng()') for z in draws[:1]})
+        return ('never-returns', 'the loop through %s is only left when `%s` fails; for a degenerate range lower == upper (width 0) the '
+                'test reads `%s`, which holds whatever the generator returns - the draw lower + t * 0 equals both bounds - so '
+                'operator() redraws forever and never returns the one value of the range [lower, lower] (e.g. a jitter amplitude of 0)'
+                % (s.cut[0].cut[1], brief(test.xreplace(names)), brief(I.refold(test.xreplace(H)))))
+    except Undecided as e:
+        return 'loop analysis: %s' % e
+
+
+def brief(t, n=160):
+    t = str(t)
+    return t if len(t) <= n else t[:n - 20] + ' ... ' + t[-15:]
+
+
 def check_distributions(ctx, U):
     R = 'R-C07-5'
     n = 0
@@ -1078,7 +1170,7 @@ def check_distributions(ctx, U):
     # ---- constructor: members lower, upper, diff
     inst = '%s constructor [%s]' % (PCG, U.cfg)
     sc = U.summary(R, inst, 'K_pcg_ctor', RANDOM, banned_key=key(PCG, 'impure'))
-    slot_lo = slot_diff = None
+    slot_lo = slot_hi = slot_diff = None
     cdiff = sp.Integer(1)
     if sc is not None:
         n += 1
@@ -1091,7 +1183,7 @@ def check_distributions(ctx, U):
             if len(los) != 1 or len(his) != 1 or len(others) != 1:
                 ctx.undecided(R, inst, 'members written from lower/upper: %s' % {k: str(fl[k]) for k in los + his + others}, RANDOM)
             else:
-                slot_lo, slot_diff = los[0], others[0]
+                slot_lo, slot_hi, slot_diff = los[0], his[0], others[0]
                 d = fl[slot_diff]
                 cd_ = sp.cancel(d / (hi - lo)) if not unknown_atoms(d, ()) else None
                 if cd_ is not None and cd_.is_Rational and cd_ > 0:
@@ -1113,7 +1205,14 @@ def check_distributions(ctx, U):
             ctx.undecided(R, inst, str(e), RANDOM)
     # ---- operator()
     inst = '%s::operator() [%s]' % (PCG, U.cfg)
-    so = U.summary(R, inst, 'K_pcg_call', RANDOM, banned_key=key(PCG, 'impure'))
+    if slot_lo is not None and sc is not None:
+        # every range returns a value: a loop in the call operator must be left for lower == upper too
+        lp = degenerate_range_loop(U, 'K_pcg_call', (slot_lo, slot_hi, slot_diff), sc.value(slot_diff))
+        if isinstance(lp, tuple):
+            ctx.violation(R, inst, lp[1], RANDOM, key=key(PCG + '::operator()', lp[0]))
+        elif lp:
+            ctx.undecided(R, inst, lp, RANDOM)
+    so = U.summary(R, inst, 'K_pcg_call', RANDOM, banned_key=key(PCG, 'impure'), max_unroll=LOOP_LIMIT)
     sr = U.summary(R, inst, 'K_pcg_raw', RANDOM)
     if so is not None and sr is not None and slot_lo is not None:
         n += 1
@@ -1203,7 +1302,16 @@ def check_distributions(ctx, U):
                                      ('K_urd_gen64_d', 'uniform_real_distribution<double>(RkvGen64)', GEN64, 8),
                                      ('K_urd_pcg', 'uniform_real_distribution<float>(pcg32)', 'pcg', 4)):
         inst = '%s [%s]' % (what, U.cfg)
-        s = U.summary(R, inst, kname, RANDOM, banned_key=key(URD, 'impure'))
+        if sl is not None:
+            cm_ = ctor_members if off_hi == 4 else ctor_members_d
+            hyp_ = {'d[0]': lo, 'd[%d]' % off_hi: hi}
+            hyp_.update({k: v for k, v in cm_.items() if not unknown_atoms(v, ())})
+            lp = degenerate_range_loop(U, kname, ('d[0]', 'd[%d]' % off_hi) + tuple(sorted(cm_)), hyp=hyp_)
+            if isinstance(lp, tuple):
+                ctx.violation(R, inst, lp[1], RANDOM, key=key(URD + '::operator()', lp[0]))
+            elif lp:
+                ctx.undecided(R, inst, lp, RANDOM)
+        s = U.summary(R, inst, kname, RANDOM, banned_key=key(URD, 'impure'), max_unroll=LOOP_LIMIT)
         if s is None or sl is None:
             continue
         n += 1
